@@ -1910,7 +1910,7 @@ class Phonopy:
                 is_time_reversal=is_time_reversal,
                 is_mesh_symmetry=is_mesh_symmetry,
                 with_eigenvectors=with_eigenvectors,
-                is_gamma_center=is_gamma_center,
+                is_gamma_center=_is_gamma_center,
                 rotations=self._primitive_symmetry.pointgroup_operations,
                 factor=self._factor,
             )
